@@ -315,7 +315,7 @@ class FingerprintDatabase(object):
         if fp_type is self.fp_type and not copy:
             return self
         return FingerprintDatabase.from_array(
-            self.array,
+            self.array.copy(),
             fp_names=self.fp_names,
             fp_type=fp_type,
             level=self.level,
@@ -729,7 +729,7 @@ class FingerprintDatabase(object):
 
     def __copy__(self):
         return FingerprintDatabase.from_array(
-            self.array,
+            self.array.copy(),
             self.fp_names,
             fp_type=self.fp_type,
             level=self.level,
